@@ -1113,6 +1113,518 @@ fn show_sql(line: &str) -> String {
     out.join(" ;; ")
 }
 
+// ------------------------------------------------------------------------------------------------ rule-level cases
+//
+//   rule <TABLES> <IX> | <PLAN>
+//   TABLES := TYS ("/" TYS)*      one letter per column, I B O S as in DB; lower case = declared NOT NULL
+//   PLAN   := scan t<k> | filter E PLAN | project p<n> E×n PLAN | join KIND (on E | -) PLAN PLAN
+//   answer := <rule>:<ALTS> (" ; " …)   for the six transformation rules in the order of `transformation_rules()`
+//   ALTS   := "-" | PLAN (" & " PLAN)*   with  ixscan t<k> x<index> lo<n> BOUND×n hi<n> BOUND×n (r E | -),  BOUND := b<pos> (in|ex) <literal>
+
+use axmosdb::verif::plan as vp;
+
+fn to_vexpr(e: &E) -> vp::VExpr {
+    let b = |x: &E| Box::new(to_vexpr(x));
+    match e {
+        E::Lit(Val::Null) => vp::VExpr::Lit(vp::VLit::Null),
+        E::Lit(Val::Int(i)) => vp::VExpr::Lit(vp::VLit::Int(*i as i64)),
+        E::Lit(Val::Bool(x)) => vp::VExpr::Lit(vp::VLit::Bool(*x)),
+        E::Lit(Val::Text(t)) => vp::VExpr::Lit(vp::VLit::Text(t.clone())),
+        E::Lit(Val::F64(_)) => vp::VExpr::Lit(vp::VLit::Null),
+        E::Col(i) => vp::VExpr::Col(*i),
+        E::Not(a) => vp::VExpr::Not(b(a)),
+        E::Neg(a) => vp::VExpr::Neg(b(a)),
+        E::Pos(a) => vp::VExpr::Pos(b(a)),
+        E::And(l, r) => vp::VExpr::And(b(l), b(r)),
+        E::Or(l, r) => vp::VExpr::Or(b(l), b(r)),
+        E::Cmp(op, l, r) => vp::VExpr::Cmp(op, b(l), b(r)),
+        E::Arith(op, l, r) => vp::VExpr::Arith(op, b(l), b(r)),
+        E::Like(n, l, r) => vp::VExpr::Like(*n, b(l), b(r)),
+        E::IsNull(n, a) => vp::VExpr::IsNull(*n, b(a)),
+        E::Between(n, a, lo, hi) => vp::VExpr::Between(*n, b(a), b(lo), b(hi)),
+        E::InList(n, a, xs) => vp::VExpr::InList(*n, b(a), xs.iter().map(to_vexpr).collect()),
+    }
+}
+
+fn show_vlit(v: &vp::VLit) -> String {
+    match v {
+        vp::VLit::Null => "n".into(),
+        vp::VLit::Int(i) => format!("i{}", i),
+        vp::VLit::Bool(b) => if *b { "b1".into() } else { "b0".into() },
+        vp::VLit::Text(t) => format!("t{}", crate::util::hex_or_dash(t)),
+    }
+}
+
+fn show_vexpr(e: &vp::VExpr, out: &mut Vec<String>) {
+    match e {
+        vp::VExpr::Lit(v) => out.push(show_vlit(v)),
+        vp::VExpr::Col(i) => out.push(format!("c{}", i)),
+        vp::VExpr::Not(a) | vp::VExpr::Neg(a) | vp::VExpr::Pos(a) => {
+            out.push(match e {
+                vp::VExpr::Not(_) => "not",
+                vp::VExpr::Neg(_) => "neg",
+                _ => "pos",
+            }
+            .into());
+            show_vexpr(a, out)
+        }
+        vp::VExpr::And(l, r) | vp::VExpr::Or(l, r) => {
+            out.push(if matches!(e, vp::VExpr::And(..)) { "and" } else { "or" }.into());
+            show_vexpr(l, out);
+            show_vexpr(r, out)
+        }
+        vp::VExpr::Cmp(op, l, r) | vp::VExpr::Arith(op, l, r) => {
+            out.push(op.to_string());
+            show_vexpr(l, out);
+            show_vexpr(r, out)
+        }
+        vp::VExpr::Like(n, l, r) => {
+            out.push(if *n { "nlike" } else { "like" }.into());
+            show_vexpr(l, out);
+            show_vexpr(r, out)
+        }
+        vp::VExpr::IsNull(n, a) => {
+            out.push(if *n { "notnull" } else { "isnull" }.into());
+            show_vexpr(a, out)
+        }
+        vp::VExpr::Between(n, a, lo, hi) => {
+            out.push(if *n { "nbtw" } else { "btw" }.into());
+            show_vexpr(a, out);
+            show_vexpr(lo, out);
+            show_vexpr(hi, out)
+        }
+        vp::VExpr::InList(n, a, xs) => {
+            out.push(format!("{}{}", if *n { "nin" } else { "in" }, xs.len()));
+            show_vexpr(a, out);
+            for x in xs {
+                show_vexpr(x, out)
+            }
+        }
+        vp::VExpr::Other(s) => out.push(format!("?{}", s.replace(' ', "_"))),
+    }
+}
+
+fn show_vplan(p: &vp::VPlan, out: &mut Vec<String>) {
+    match p {
+        vp::VPlan::Scan(t) => {
+            out.push("scan".into());
+            out.push(format!("t{}", t))
+        }
+        vp::VPlan::IndexScan { table, index, lo, hi, resid } => {
+            out.push("ixscan".into());
+            out.push(format!("t{}", table));
+            out.push(format!("x{}", index));
+            for (name, bs) in [("lo", lo), ("hi", hi)] {
+                out.push(format!("{}{}", name, bs.len()));
+                for b in bs {
+                    out.push(format!("b{}", b.pos));
+                    out.push(if b.inclusive { "in" } else { "ex" }.into());
+                    out.push(show_vlit(&b.value));
+                }
+            }
+            match resid {
+                Some(e) => {
+                    out.push("r".into());
+                    show_vexpr(e, out)
+                }
+                None => out.push("-".into()),
+            }
+        }
+        vp::VPlan::Filter(e, c) => {
+            out.push("filter".into());
+            show_vexpr(e, out);
+            show_vplan(c, out)
+        }
+        vp::VPlan::Project(items, c) => {
+            out.push("project".into());
+            out.push(format!("p{}", items.len()));
+            for e in items {
+                show_vexpr(e, out)
+            }
+            show_vplan(c, out)
+        }
+        vp::VPlan::Join(k, on, l, r) => {
+            out.push("join".into());
+            out.push(k.to_string());
+            match on {
+                Some(e) => {
+                    out.push("on".into());
+                    show_vexpr(e, out)
+                }
+                None => out.push("-".into()),
+            }
+            show_vplan(l, out);
+            show_vplan(r, out)
+        }
+        vp::VPlan::Other(s) => out.push(format!("?{}", s.replace(' ', "_"))),
+    }
+}
+
+/// one expression of the case syntax, through the parser of engine `sql` (a WHERE clause of a throw-away statement)
+fn parse_expr_words(ws: &[&str], pos: &mut usize, ncols_hint: &str) -> Option<E> {
+    // find the shortest prefix that parses as an expression
+    for end in (*pos + 1)..=ws.len() {
+        let l = format!("sql {}= ; del t0 w {}", ncols_hint, ws[*pos..end].join(" "));
+        if let Some((_, mut stmts)) = parse_case(&l) {
+            if let Some(Stmt::Delete(_, Some(e))) = stmts.pop() {
+                *pos = end;
+                return Some(e);
+            }
+        }
+    }
+    None
+}
+
+fn parse_vplan(ws: &[&str], pos: &mut usize) -> Option<vp::VPlan> {
+    let w = *ws.get(*pos)?;
+    *pos += 1;
+    match w {
+        "scan" => {
+            let t = ws.get(*pos)?.strip_prefix('t')?.parse().ok()?;
+            *pos += 1;
+            Some(vp::VPlan::Scan(t))
+        }
+        "filter" => {
+            let e = parse_expr_words(ws, pos, "I")?;
+            let c = parse_vplan(ws, pos)?;
+            Some(vp::VPlan::Filter(to_vexpr(&e), Box::new(c)))
+        }
+        "project" => {
+            let n: usize = ws.get(*pos)?.strip_prefix('p')?.parse().ok()?;
+            *pos += 1;
+            let mut items = Vec::new();
+            for _ in 0..n {
+                items.push(to_vexpr(&parse_expr_words(ws, pos, "I")?));
+            }
+            let c = parse_vplan(ws, pos)?;
+            Some(vp::VPlan::Project(items, Box::new(c)))
+        }
+        "join" => {
+            let k = *["inner", "left", "right", "full", "cross"].iter().find(|k| **k == *ws.get(*pos).unwrap_or(&""))?;
+            *pos += 1;
+            let on = match *ws.get(*pos)? {
+                "-" => {
+                    *pos += 1;
+                    None
+                }
+                "on" => {
+                    *pos += 1;
+                    Some(to_vexpr(&parse_expr_words(ws, pos, "I")?))
+                }
+                _ => return None,
+            };
+            let l = parse_vplan(ws, pos)?;
+            let r = parse_vplan(ws, pos)?;
+            Some(vp::VPlan::Join(k, on, Box::new(l), Box::new(r)))
+        }
+        _ => None,
+    }
+}
+
+fn parse_vtables(w: &str, ixs: &[Ix]) -> Option<Vec<vp::VTable>> {
+    let mut out = Vec::new();
+    for (t, tw) in w.split('/').enumerate() {
+        if tw.is_empty() {
+            return None;
+        }
+        let mut cols = Vec::new();
+        for ch in tw.chars() {
+            let ty = match ch.to_ascii_uppercase() {
+                'I' => vp::VTy::Int,
+                'B' => vp::VTy::BigInt,
+                'O' => vp::VTy::Bool,
+                'S' => vp::VTy::Text,
+                _ => return None,
+            };
+            cols.push((ty, ch.is_ascii_lowercase()));
+        }
+        let indexes: Vec<Vec<usize>> = ixs.iter().filter(|x| x.table == t).map(|x| x.cols.clone()).collect();
+        if indexes.iter().any(|ix| ix.iter().any(|c| *c >= cols.len())) || indexes.len() > 15 {
+            return None;
+        }
+        out.push(vp::VTable { cols, indexes });
+    }
+    Some(out)
+}
+
+fn run_rule_case(line: &str) -> String {
+    let ws: Vec<&str> = line.split_whitespace().collect();
+    if ws.len() < 5 || ws[0] != "rule" || ws[3] != "|" {
+        return "bad-op".into();
+    }
+    let Some(ixs) = parse_ixs(ws[2]) else { return "bad-op".into() };
+    let ntables = ws[1].split('/').count();
+    if ixs.iter().any(|x| x.table >= ntables) {
+        return "bad-op".into();
+    }
+    let Some(tables) = parse_vtables(ws[1], &ixs) else { return "bad-op".into() };
+    let mut pos = 4;
+    let Some(plan) = parse_vplan(&ws, &mut pos) else { return "bad-op".into() };
+    if pos != ws.len() {
+        return "bad-op".into();
+    }
+    match vp::apply_rules(&tables, &plan) {
+        Err(e) => format!("rule-error ## {}", e),
+        Ok(rs) => rs
+            .iter()
+            .map(|(name, alts)| {
+                let a = if alts.is_empty() {
+                    "-".to_string()
+                } else {
+                    alts.iter()
+                        .map(|p| {
+                            let mut out = Vec::new();
+                            show_vplan(p, &mut out);
+                            out.join(" ")
+                        })
+                        .collect::<Vec<_>>()
+                        .join(" & ")
+                };
+                format!("{}:{}", name, a)
+            })
+            .collect::<Vec<_>>()
+            .join(" ; "),
+    }
+}
+
+// generator of rule-level cases
+
+struct RG<'a> {
+    rng: &'a mut Rng,
+    tables: Vec<Vec<(Ty, bool)>>,
+}
+
+impl<'a> RG<'a> {
+    fn lit(&mut self, ty: Ty) -> E {
+        if self.rng.chance(1, 12) {
+            return E::Lit(Val::Null);
+        }
+        match ty {
+            Ty::Int | Ty::BigInt => {
+                if self.rng.chance(1, 10) {
+                    lit_i(*self.rng.pick(&[3_000_000_000i128, -2147483649, 2147483647]))
+                } else {
+                    lit_i(self.rng.range(-3, 12) as i128)
+                }
+            }
+            Ty::Bool => E::Lit(Val::Bool(self.rng.chance(1, 2))),
+            Ty::Text => E::Lit(Val::Text(self.rng.pick(&TEXTS).as_bytes().to_vec())),
+        }
+    }
+
+    fn atom(&mut self, cols: &[(usize, Ty)]) -> E {
+        let (c, ty) = *self.rng.pick(cols);
+        let col = E::Col(c);
+        let same: Vec<usize> = cols.iter().filter(|x| x.1 == ty || (is_int(x.1) && is_int(ty))).map(|x| x.0).collect();
+        match self.rng.below(14) {
+            0..=3 => {
+                let l = self.lit(ty);
+                cmp(*self.rng.pick(&["eq", "ne", "lt", "le", "gt", "ge"]), col, l)
+            }
+            4 | 5 => {
+                let l = self.lit(ty);
+                cmp(*self.rng.pick(&["eq", "lt", "le", "gt", "ge"]), l, col)
+            }
+            6 | 7 => cmp(*self.rng.pick(&["eq", "eq", "lt", "ne"]), col, E::Col(*self.rng.pick(&same))),
+            8 => E::IsNull(self.rng.chance(1, 2), b(col)),
+            9 => {
+                let (lo, hi) = (self.lit(ty), self.lit(ty));
+                E::Between(self.rng.chance(1, 3), b(col), b(lo), b(hi))
+            }
+            10 => {
+                let xs = vec![self.lit(ty), E::Col(*self.rng.pick(&same))];
+                E::InList(self.rng.chance(1, 3), b(col), xs)
+            }
+            11 if is_int(ty) => {
+                let l = self.lit(ty);
+                cmp("eq", E::Arith(*self.rng.pick(&["add", "sub", "mul"]), b(col), b(E::Col(*self.rng.pick(&same)))), l)
+            }
+            12 if is_int(ty) => {
+                let l = self.lit(ty);
+                cmp("gt", E::Neg(b(col)), l)
+            }
+            13 if ty == Ty::Text => E::Like(self.rng.chance(1, 3), b(col), b(E::Lit(Val::Text(b"a%".to_vec())))),
+            _ => {
+                let l = self.lit(ty);
+                cmp("eq", col, l)
+            }
+        }
+    }
+
+    fn pred(&mut self, cols: &[(usize, Ty)], depth: u32) -> E {
+        if depth == 0 || cols.is_empty() {
+            if cols.is_empty() {
+                return cmp("eq", lit_i(1), lit_i(1));
+            }
+            return self.atom(cols);
+        }
+        match self.rng.below(10) {
+            0..=5 => and(self.pred(cols, depth - 1), self.pred(cols, depth - 1)),
+            6 => E::Or(b(self.pred(cols, depth - 1)), b(self.pred(cols, depth - 1))),
+            7 => E::Not(b(self.pred(cols, depth - 1))),
+            _ => self.atom(cols),
+        }
+    }
+
+    /// a plan with its output column types
+    fn plan(&mut self, depth: u32) -> (vp::VPlan, Vec<Ty>) {
+        let leaf = depth == 0 || self.rng.chance(1, 4);
+        if leaf {
+            let t = self.rng.below(self.tables.len() as u64) as usize;
+            return (vp::VPlan::Scan(t), self.tables[t].iter().map(|c| c.0).collect());
+        }
+        match self.rng.below(10) {
+            0..=3 => {
+                let (c, tys) = self.plan(depth - 1);
+                let cols: Vec<(usize, Ty)> = tys.iter().copied().enumerate().collect();
+                let d = self.rng.below(3) as u32;
+                let e = self.pred(&cols, d);
+                (vp::VPlan::Filter(to_vexpr(&e), Box::new(c)), tys)
+            }
+            4 | 5 => {
+                let (c, tys) = self.plan(depth - 1);
+                let n = self.rng.range(1, 4) as usize;
+                let mut items = Vec::new();
+                let mut out = Vec::new();
+                let plain = self.rng.chance(3, 4);
+                for _ in 0..n {
+                    let i = self.rng.below(tys.len() as u64) as usize;
+                    if !plain && is_int(tys[i]) && self.rng.chance(1, 2) {
+                        items.push(E::Arith("add", b(E::Col(i)), b(lit_i(1))));
+                        out.push(Ty::BigInt);
+                    } else {
+                        items.push(E::Col(i));
+                        out.push(tys[i]);
+                    }
+                }
+                (vp::VPlan::Project(items.iter().map(to_vexpr).collect(), Box::new(c)), out)
+            }
+            _ => {
+                let (l, lt) = self.plan(depth - 1);
+                let (r, rt) = self.plan(depth.saturating_sub(2));
+                let mut tys = lt.clone();
+                tys.extend(rt.iter().copied());
+                let kind = *self.rng.pick(&["inner", "inner", "inner", "cross", "left", "right", "full"]);
+                let on = if kind == "cross" && self.rng.chance(2, 3) {
+                    None
+                } else {
+                    let cols: Vec<(usize, Ty)> = tys.iter().copied().enumerate().collect();
+                    let d = self.rng.below(3) as u32;
+                    Some(to_vexpr(&self.pred(&cols, d)))
+                };
+                (vp::VPlan::Join(kind, on, Box::new(l), Box::new(r)), tys)
+            }
+        }
+    }
+}
+
+fn gen_rule_case(rng: &mut Rng) -> Case {
+    loop {
+        let c = gen_rule_case_once(rng);
+        if let Some(c) = c {
+            return c;
+        }
+    }
+}
+
+fn gen_rule_case_once(rng: &mut Rng) -> Option<Case> {
+    let nt = rng.range(1, 3) as usize;
+    let mut tables: Vec<Vec<(Ty, bool)>> = Vec::new();
+    let mut ixs: Vec<Ix> = Vec::new();
+    for t in 0..nt {
+        let n = rng.range(1, 4) as usize;
+        let cols: Vec<(Ty, bool)> =
+            (0..n).map(|_| (*rng.pick(&[Ty::Int, Ty::Int, Ty::BigInt, Ty::Text, Ty::Bool]), rng.chance(1, 3))).collect();
+        for _ in 0..rng.below(3) {
+            let mut cs: Vec<usize> = (0..n).collect();
+            rng.shuffle(&mut cs);
+            cs.truncate(rng.range(1, 2.min(n as i64)) as usize);
+            ixs.push(Ix { table: t, cols: cs });
+        }
+        tables.push(cols);
+    }
+    let mut g = RG { rng, tables: tables.clone() };
+    // shapes the rules look for at the root, on top of random sub-plans
+    let (plan, _) = match g.rng.below(8) {
+        0 | 1 => {
+            // a filter over a table scan (index scan rule): mostly conjunctions of comparisons with literals
+            let t = g.rng.below(nt as u64) as usize;
+            let cols: Vec<(usize, Ty)> = tables[t].iter().map(|c| c.0).enumerate().collect();
+            let d = g.rng.range(0, 2) as u32;
+            let e = g.pred(&cols, d);
+            (vp::VPlan::Filter(to_vexpr(&e), Box::new(vp::VPlan::Scan(t))), vec![])
+        }
+        _ => {
+            let d = g.rng.range(1, 3) as u32;
+            g.plan(d)
+        }
+    };
+    // A join of a plan with itself is left out: whether the memo takes the two inputs for one group depends on the
+    // iteration order of a HashMap (Schema's Debug output is part of the memo hash), and with it whether the commuted
+    // join counts as new — either outcome is sound, but the outcome is not a function of the case.
+    if let vp::VPlan::Join(_, _, l, r) = &plan {
+        if l == r {
+            return None;
+        }
+    }
+    let tw: Vec<String> = tables
+        .iter()
+        .map(|cols| {
+            cols.iter()
+                .map(|(ty, nn)| {
+                    let ch = match ty {
+                        Ty::Int => 'I',
+                        Ty::BigInt => 'B',
+                        Ty::Bool => 'O',
+                        Ty::Text => 'S',
+                    };
+                    if *nn { ch.to_ascii_lowercase() } else { ch }
+                })
+                .collect()
+        })
+        .collect();
+    let mut words = Vec::new();
+    show_vplan(&plan, &mut words);
+    let line = format!("rule {} {} | {}", tw.join("/"), show_ixs(&ixs), words.join(" "));
+    // which rules really fire on it (the facade is pure: no database, no threads)
+    let vt: Vec<vp::VTable> = tables
+        .iter()
+        .enumerate()
+        .map(|(t, cols)| vp::VTable {
+            cols: cols
+                .iter()
+                .map(|(ty, nn)| {
+                    (
+                        match ty {
+                            Ty::Int => vp::VTy::Int,
+                            Ty::BigInt => vp::VTy::BigInt,
+                            Ty::Bool => vp::VTy::Bool,
+                            Ty::Text => vp::VTy::Text,
+                        },
+                        *nn,
+                    )
+                })
+                .collect(),
+            indexes: ixs.iter().filter(|x| x.table == t).map(|x| x.cols.clone()).collect(),
+        })
+        .collect();
+    let mut tags = vec!["rule".to_string()];
+    if let Ok(rs) = vp::apply_rules(&vt, &plan) {
+        let mut any = false;
+        for (name, alts) in rs {
+            if !alts.is_empty() {
+                any = true;
+                tags.push(format!("rule.fires.{}", name));
+            }
+        }
+        if !any {
+            tags.push("rule.fires.none".into());
+        }
+    }
+    tags.push("nt".into());
+    Some(Case { line, tags })
+}
+
 // ------------------------------------------------------------------------------------------------ generation
 
 const TEXTS: [&str; 14] = ["a", "ab", "abc", "b", "ba", "bb", "c", "ca", "d", "x", "xy", "y", "zz", "m"];
@@ -2162,7 +2674,13 @@ fn gen_all(rng: &mut Rng, tier: Tier) -> Vec<Case> {
         }
     }
     let _ = std::fs::remove_dir_all(&dir);
-    lines
+    let nrules = match tier {
+        Tier::Quick => 1500,
+        Tier::Thorough => 15000,
+    };
+    let mut rrng = rng.fork("rules");
+    let rule_cases: Vec<Case> = (0..nrules).map(|_| gen_rule_case(&mut rrng)).collect();
+    let mut all: Vec<Case> = lines
         .into_iter()
         .enumerate()
         .map(|(i, (line, tags))| {
@@ -2178,7 +2696,9 @@ fn gen_all(rng: &mut Rng, tier: Tier) -> Vec<Case> {
             tags.push("nt".into());
             Case { line, tags }
         })
-        .collect()
+        .collect();
+    all.extend(rule_cases);
+    all
 }
 
 impl Engine for PlanEngine {
@@ -2195,6 +2715,9 @@ impl Engine for PlanEngine {
             return show_sql(rest);
         }
         install_worker_panic_recorder();
+        if line.starts_with("rule ") {
+            return run_rule_case(line);
+        }
         if let Some(rest) = line.strip_prefix("measure ") {
             let o = run_case(rest, false);
             if o.line.starts_with("bad-op") || o.line.starts_with("setup-failed") {
